@@ -278,3 +278,18 @@ class Guard:
     def done(self):
         if self.pending is not None:
             raise self.pending
+
+
+def builder_obj(repo, name='builder', **fields):
+    """a Builder object for evaluated tables: initialised by Builder.__init__ itself (so that whatever state the implementation keeps
+    on a builder exists on it), then given the fields the table needs"""
+    from ..fde import FDE, Obj, Unsupported
+    b = Obj(name, 'Builder')
+    try:
+        FDE(repo).call(repo.func('Builder.__init__'), b)
+    except Exception:  # noqa  (a constructor beyond the evaluator: the plain object the tables used before)
+        b = Obj(name, 'Builder')
+    for k, v in fields.items():
+        b.f[k] = v
+        b.missing.discard(k)
+    return b
